@@ -229,70 +229,101 @@ def loom_attribution(name, props, msg):
     return {"C01"}
 
 
+def loom_scenario(ctx, pid, exe, ldir, name, props):
+    """All bounds of one scenario (one single-threaded child process per bound); returns (run records, violations)."""
+    runs, viols = [], []
+    bounds = ["2"] if ctx.tier == "quick" else (["3", "none"] if name in UNBOUNDED_OK else ["3"])
+    for pb in bounds:
+        ck = os.path.join(ldir, "%s.pb%s.%s.checkpoint.json" % (name, pb, pid))
+        if os.path.exists(ck):
+            os.remove(ck)
+        cap = "120" if ctx.tier == "quick" else "900"
+        cmd = [exe, "run", name, "--pb", pb, "--max-secs", cap]
+        p, wall = ctx.run_engine(cmd, int(cap) + 240, "filoom run %s" % name, env=ctx.env)
+        if p.returncode != 0:
+            # re-run with checkpointing to leave the failing schedule on disk (writing a
+            # checkpoint per iteration is slow, so it is only done after a failure)
+            env = dict(ctx.env, LOOM_CHECKPOINT_FILE=ck, LOOM_CHECKPOINT_INTERVAL="1")
+            p, wall = ctx.run_engine(cmd, 4 * (int(cap) + 240), "filoom run %s (checkpointing)" % name, env=env)
+        ok = [l for l in p.stdout.splitlines() if l.startswith("LOOM-OK")]
+        if p.returncode == 0 and ok:
+            f = dict(kv.split("=") for kv in ok[0].split()[1:])
+            runs.append({"scenario": name, "preemption_bound": pb, "schedules": int(f["schedules"]), "wall_s": float(f["wall_s"]), "duration_cap_hit": f["duration_cap_hit"] == "true", "result": "ok"})
+            if os.path.exists(ck):
+                os.remove(ck)
+            continue
+        err = p.stderr or ""
+        lines = err.splitlines()
+        msg = ""
+        for i, l in enumerate(lines):
+            if "panicked at" in l and i + 1 < len(lines):
+                msg = lines[i + 1].strip()
+                break
+        if not msg or msg.startswith("MACHINERY"):
+            ctx.machinery("filoom run %s exited with status %s without a loom failure message:\n%s" % (name, p.returncode, "\n".join(lines[-15:])))
+        who = loom_attribution(name, props, msg)
+        if "deadlock" in msg and name.startswith("sem_") and "C06" in who:
+            # a semaphore scenario can also deadlock because permits were lost (C05), in which
+            # case no wake-up is missing: if the non-blocking conservation scenario fails too,
+            # the deadlock is attributed to C05
+            p2, _ = ctx.run_engine([exe, "run", "sem_try_conserve", "--pb", pb, "--max-secs", cap], int(cap) + 240, "filoom run sem_try_conserve", env=ctx.env)
+            if p2.returncode != 0:
+                who = (who - {"C06"}) | {"C05"}
+                msg = msg + " [permits are not conserved (scenario sem_try_conserve fails): attributed to C05]"
+        runs.append({"scenario": name, "preemption_bound": pb, "schedules": None, "wall_s": round(wall, 2), "result": "FAILED: " + msg[:300], "attributed_to": sorted(who)})
+        if pid in who:
+            viols.append({"engine": "E-LOOM", "property": pid, "scenario": name, "preemption_bound": pb, "checkpoint_file": ck, "message": msg[:600],
+                          "signature": "loom|%s|%s" % (name, msg[:80]),
+                          "replay_hint": "LOOM_CHECKPOINT_FILE=%s %s run %s --pb %s   (replays exactly the failing schedule)" % (ck, exe, name, pb),
+                          "summary": "loom scenario %s (preemption bound %s): %s" % (name, pb, msg[:300])})
+        break
+    return runs, viols
+
+
 def loom_part(ctx, pid):
+    """The loom scenarios of a property; every scenario is explored by its own single-threaded child
+    process, up to LOOM_JOBS of them at a time."""
+    from concurrent.futures import ThreadPoolExecutor
     exe = os.path.join(ctx.root, "target", "release", "filoom")
     ldir = os.path.join(ctx.out, "loom")
     os.makedirs(ldir, exist_ok=True)
+    scen = loom_scenarios(ctx, pid)
+    jobs = int(os.environ.get("LOOM_JOBS", "0") or 0) or max(1, min(12, (os.cpu_count() or 2) - 2))
     runs, viols = [], []
-    for name, props in loom_scenarios(ctx, pid):
-        bounds = ["2"] if ctx.tier == "quick" else (["3", "none"] if name in UNBOUNDED_OK else ["3"])
-        for pb in bounds:
-            ck = os.path.join(ldir, "%s.pb%s.%s.checkpoint.json" % (name, pb, pid))
-            if os.path.exists(ck):
-                os.remove(ck)
-            cap = "120" if ctx.tier == "quick" else "900"
-            cmd = [exe, "run", name, "--pb", pb, "--max-secs", cap]
-            p, wall = ctx.run_engine(cmd, int(cap) + 120, "filoom run %s" % name, env=ctx.env)
-            if p.returncode != 0:
-                # re-run with checkpointing to leave the failing schedule on disk (writing a
-                # checkpoint per iteration is slow, so it is only done after a failure)
-                env = dict(ctx.env, LOOM_CHECKPOINT_FILE=ck, LOOM_CHECKPOINT_INTERVAL="1")
-                p, wall = ctx.run_engine(cmd, 4 * (int(cap) + 120), "filoom run %s (checkpointing)" % name, env=env)
-            ok = [l for l in p.stdout.splitlines() if l.startswith("LOOM-OK")]
-            if p.returncode == 0 and ok:
-                f = dict(kv.split("=") for kv in ok[0].split()[1:])
-                runs.append({"scenario": name, "preemption_bound": pb, "schedules": int(f["schedules"]), "wall_s": float(f["wall_s"]), "duration_cap_hit": f["duration_cap_hit"] == "true", "result": "ok"})
-                if os.path.exists(ck):
-                    os.remove(ck)
-                continue
-            err = p.stderr or ""
-            lines = err.splitlines()
-            msg = ""
-            for i, l in enumerate(lines):
-                if "panicked at" in l and i + 1 < len(lines):
-                    msg = lines[i + 1].strip()
-                    break
-            if not msg:
-                ctx.machinery("filoom run %s exited with status %s without a loom failure message:\n%s" % (name, p.returncode, "\n".join(lines[-15:])))
-            who = loom_attribution(name, props, msg)
-            if "deadlock" in msg and name.startswith("sem_") and "C06" in who:
-                # a semaphore scenario can also deadlock because permits were lost (C05), in which
-                # case no wake-up is missing: if the non-blocking conservation scenario fails too,
-                # the deadlock is attributed to C05
-                p2, _ = ctx.run_engine([exe, "run", "sem_try_conserve", "--pb", pb, "--max-secs", cap], int(cap) + 120, "filoom run sem_try_conserve", env=ctx.env)
-                if p2.returncode != 0:
-                    who = (who - {"C06"}) | {"C05"}
-                    msg = msg + " [permits are not conserved (scenario sem_try_conserve fails): attributed to C05]"
-            runs.append({"scenario": name, "preemption_bound": pb, "schedules": None, "wall_s": round(wall, 2), "result": "FAILED: " + msg[:300], "attributed_to": sorted(who)})
-            if pid in who:
-                viols.append({"engine": "E-LOOM", "property": pid, "scenario": name, "preemption_bound": pb, "checkpoint_file": ck, "message": msg[:600],
-                              "signature": "loom|%s|%s" % (name, msg[:80]),
-                              "replay_hint": "LOOM_CHECKPOINT_FILE=%s %s run %s --pb %s   (replays exactly the failing schedule)" % (ck, exe, name, pb),
-                              "summary": "loom scenario %s (preemption bound %s): %s" % (name, pb, msg[:300])})
-            break
-    cov = {"scenarios": runs, "schedules": sum(r["schedules"] or 0 for r in runs)}
+    with ThreadPoolExecutor(max_workers=jobs) as ex:
+        futs = [ex.submit(loom_scenario, ctx, pid, exe, ldir, name, props) for name, props in scen]
+        for f in futs:
+            r, v = f.result()
+            runs += r
+            viols += v
+    cov = {"scenarios": runs, "schedules": sum(r["schedules"] or 0 for r in runs), "parallel_jobs": jobs}
     return cov, viols
 
 
 def seq_loom_property(note=None, valgrind=False):
     def f(ctx, pid):
-        doc, wall = run_seq(ctx, pid)
-        cov, viols = seq_part(ctx, pid, doc)
-        if valgrind and not viols:
-            vcov, vviols = valgrind_part(ctx, pid, "valgrind" if ctx.tier == "quick" else "valgrind-big")
-            cov["valgrind"] = vcov
-            viols += vviols
-        lcov, lviols = loom_part(ctx, pid)
+        # the three engines are independent child processes: the loom scenarios (single-threaded
+        # children) and the valgrind pass run while the 16-thread explorer works
+        from concurrent.futures import ThreadPoolExecutor
+        with ThreadPoolExecutor(max_workers=2) as ex:
+            lf = ex.submit(loom_part, ctx, pid)
+            vf = ex.submit(valgrind_part, ctx, pid, "valgrind" if ctx.tier == "quick" else "valgrind-big") if valgrind else None
+            doc, wall = run_seq(ctx, pid)
+            cov, viols = seq_part(ctx, pid, doc)
+            if vf is not None:
+                try:
+                    vcov, vviols = vf.result()
+                except SystemExit:
+                    # a valgrind child that could not finish is only a machinery problem if the
+                    # explorer found nothing: memory corruption behind a reported violation
+                    # legitimately derails it
+                    if not viols:
+                        raise
+                    vcov, vviols = {"skipped": "explorer reported violations"}, []
+                if not viols:
+                    cov["valgrind"] = vcov
+                    viols += vviols
+            lcov, lviols = lf.result()
         cov["loom"] = lcov
         cov["traces_validated_against_impl"] += lcov["schedules"]
         cov["summary"] = "states=%d transitions=%d exhaustive=%s loom_schedules=%d (%d scenarios)" % (cov["states"], cov["transitions"], cov["exhaustive"], lcov["schedules"], len(lcov["scenarios"]))
